@@ -3,7 +3,7 @@ import itertools
 import vlib, domlib as D
 from . import domcommon as DC
 
-THEOREMS = ['see props/C08.v']
+THEOREMS = ['see props/C08.v', 'C08_checked_start: wf_ok (executable) is sound; the harness runs it on the snapshot of the real nodes every history starts from, so WF of the starting heap is established, not assumed']
 RULE = ('lock-step: every operation sequence up to length L over a working set of 3 element + 2 text nodes (attached to a document '
         'and free-standing; all of appendChild, insertBefore with every reference incl. None and non-children, removeChild, addElement, '
         'addText, addCDATA; caller error "into own descendant" excluded) is run on the real DOM and on the extracted heap model; after each '
